@@ -51,6 +51,10 @@ def corpus(seed, tier):
     for i, p in enumerate(la):
         out.append((f'l{i}', p, 400))
     dist['lookahead_machines'] = len(la)
+    ers = gen.eraser_compositions()
+    for i, p in enumerate(ers):
+        out.append((f'e{i}', p, 1000))
+    dist['eraser_compositions'] = len(ers)
     # leaves of the real tree generator (3x2 .. 2x4, both trees): short closed orbits, near-arithmetic count sequences
     # (after seeded change C03-m1: three of four snapshot counts in arithmetic progression)
     lv = gen.tree_leaves(rng, 1500 if tier == 'quick' else 12000)
